@@ -96,7 +96,9 @@ class User(ModelMixin["User"], Base):
 
     @property
     def is_authenticated(self) -> bool:
-        return True
+        # the guest account is used to issue access tokens to visitors
+        # who have not logged in, it is not an authenticated user
+        return self.username != self.__GUEST_USERNAME
 
     @property
     def is_anonymous(self) -> bool:
